@@ -4,7 +4,7 @@ import re
 
 from sa import pyflow
 from sa.consteval import Evaluator, is_unknown
-from sa.loader import AnalysisError, enclosing_function
+from sa.loader import parent_chain, AnalysisError, enclosing_function
 
 EXPLANATION = (
     "Twin-computation and grammar analysis of ast.EnumNode.__init__: (R1) every assignment to the C "
@@ -256,6 +256,37 @@ def run(repo, run, tier):
               all(pyflow.is_name(c.args[1], table.split(".")[-1] if table else "") for c in calls),
               "value expressions must be rewritten once with C_enum_member and once with F_enum_member using the "
               "member table; found %s" % keys, am.loc(value_loop), sample=dict(keys=keys))
+    # the rewriter sees exactly the member table of the enumeration being evaluated
+    pn = tm.func("print_node_identifier")
+    params = [a.arg for a in pn.args.args]
+    ctor = [c for c in ast.walk(pn) if isinstance(c, ast.Call) and pyflow.is_name(c.func, "PrintNodeIdentifier")]
+    ok = len(ctor) == 1 and len(ctor[0].args) == 2 and len(params) >= 3 and \
+        pyflow.is_name(ctor[0].args[0], params[1]) and pyflow.is_name(ctor[0].args[1], params[2]) and \
+        not any(isinstance(x, (ast.Global, ast.Nonlocal)) for x in ast.walk(pn)) and \
+        not [x for x in ast.walk(pn) if isinstance(x, ast.Name) and isinstance(x.ctx, ast.Load)
+             and x.id not in params and x.id not in ("PrintNodeIdentifier", "visitor")
+             and x.id not in [t.id for a in ast.walk(pn) if isinstance(a, ast.Assign) for t in a.targets if isinstance(t, ast.Name)]]
+    run.check(R5, "todict.print_node_identifier:own-table", ok,
+              "identifiers of a value expression must be resolved in the table passed by the caller (the enumeration's own "
+              "members) and nothing else: a shared or remembered table resolves a name to a member of another enumeration",
+              tm.loc(pn))
+    # the parser builds BinaryOp from the operator token and the operand sub-expression as parsed (no rewriting)
+    ex = dm.func("ExprParser.expression")
+    b = [c for c in ast.walk(ex) if isinstance(c, ast.Call) and pyflow.is_name(c.func, "BinaryOp")]
+    ok = len(b) == 1 and len(b[0].args) == 3 and all(isinstance(a, ast.Name) for a in b[0].args)
+    if ok:
+        lp = next((a for a in parent_chain(b[0]) if isinstance(a, (ast.While, ast.For))), None)
+        for arg, want in ((b[0].args[1], "self.token.value"), (b[0].args[2], None)):
+            asg = [a for a in ast.walk(lp) if isinstance(a, ast.Assign) and pyflow.is_name(a.targets[0], arg.id)]
+            if len(asg) != 1:
+                ok = False
+            elif want and dm.seg(asg[0].value) != want:
+                ok = False
+            elif not want and not (isinstance(asg[0].value, ast.Call) and (pyflow.call_name(asg[0].value) or "") == "self.expression"):
+                ok = False
+    run.check(R5, "declast.ExprParser.expression:as-written", ok,
+              "BinaryOp(lhs, op, rhs) must be built from the operator token and the parsed right operand exactly as "
+              "written (each assigned once per iteration): rewriting `a + -b` or `a - -b` changes values", dm.loc(ex))
     # print of binary / paren expressions keeps structure
     for name, needle in (("visit_BinaryOp", "self.visit(node.left)+node.op+self.visit(node.right)"),
                          ("visit_ParenExpr", "'('+self.visit(node.node)+')'"),
@@ -282,6 +313,18 @@ def run(repo, run, tier):
         run.check(R6, "%s.%s:no-cross" % (mname, q), not bad, "emitter uses the other language's keys: %s" % bad, m.loc(fn))
         run.check(R6, "%s.%s:member-table" % (mname, q), "_fmtmembers" in m.seg(fn) and "fmtmembers[member.name]" in m.seg(fn),
                   "emitter must read the per-member scopes the node created", m.loc(fn))
+    # emitters print the values computed by EnumNode; they never re-evaluate or overwrite them
+    for mname, q in (("wrapc", "Wrapc.wrap_enum"), ("wrapf", "Wrapf.wrap_enum"), ("wrapp", "Wrapp.wrap_enum")):
+        m = repo.module(mname)
+        fn = m.func(q)
+        writes = [m.seg(a) for a in ast.walk(fn) if isinstance(a, (ast.Assign, ast.AugAssign)) for t in
+                  (a.targets if isinstance(a, ast.Assign) else [a.target])
+                  if isinstance(t, ast.Attribute) and t.attr in ("C_value", "F_value", "evalue")]
+        evals = [m.seg(c) for c in ast.walk(fn) if isinstance(c, ast.Call) and (pyflow.call_name(c) or "") in ("eval", "exec", "int", "float")]
+        run.check(R6, "%s.%s:values-as-computed" % (mname, q), not writes and not evals,
+                  "the emitter changes or re-evaluates enumerator values (%s): Python arithmetic differs from C++ "
+                  "(floor vs truncating division), and the C and Fortran values no longer come from one computation"
+                  % (writes + evals)[:2], m.loc(fn))
     # Fortran always writes a value: template has "= {F_value}" unconditionally
     wf = repo.module("wrapf").func("Wrapf.wrap_enum")
     fv_sites = [n for n in ast.walk(wf) if isinstance(n, ast.Constant) and isinstance(n.value, str) and "{F_value}" in n.value]
